@@ -45,7 +45,8 @@ def builder_cases():
                                                  "net.trafo.tap_step_percent", "net.trafo.tap_side", "ppc.bus.BASE_KV"]),
             Sink("store:ppc.branch.SHIFT", {}, 0, ["net.trafo.shift_degree", "net.trafo.tap_step_degree", "net.trafo.tap_pos", "net.trafo.tap_side",
                                                    "net.trafo.tap_changer_type", "net.trafo.tap_neutral", "net.trafo.tap_step_percent"]),
-            Sink("store:ppc.branch.RATE_A", {"V": 1, "A": 1, "par": 1}, 6, ["net.trafo.sn_mva", "net.trafo.df", "net.trafo.max_loading_percent"]),
+            Sink("store:ppc.branch.RATE_A", {"V": 1, "A": 1, "par": 1}, 6, ["net.trafo.sn_mva", "net.trafo.df", "net.trafo.max_loading_percent"],
+                 data_needs=["net.trafo.df", "net.trafo.sn_mva", "net.trafo.max_loading_percent"]),
             Sink("store:ppc.branch.BR_STATUS", {}, 0, ["net.trafo.in_service"]),
         ] + ([
             Sink("store:ppc.branch.BR_G_ASYM", {"B": -1, "par": 1}, 0),
